@@ -139,17 +139,19 @@ example : algA 3 10 (fun t => [2, 9].getD t 0) 0 = .ok [2, 8, 9] ∧ algAFinalN 
 /-! ### random -/
 
 /-- **random_branch_total.** For `0 ≤ nnz ≤ elements` the generated selection returns one of the seven
-leaves, calls every sampler inside its domain (`choice` with size 0 or 1; algD with `2 ≤ n`, `10 n < N`;
-algA with `2 ≤ n ≤ N - 2`) and with the population `elements`. -/
+leaves, with the population `elements`, and calls every sampler inside its domain: `arange` only when
+`nnz = elements`; `choice` with size 0 or 1 only; algD with `1 ≤ n < N`; algA with `1 ≤ n ≤ N`; the
+complemented samplers with `n = elements - nnz`.  (The `10 ×` thresholds that choose between algA and algD are
+performance choices; they are not part of the statement.) -/
 theorem random_branch_total (nnz elements : Int) (dge1 : Bool) (h0 : 0 ≤ nnz) (h1 : nnz ≤ elements)
     (hd : dge1 = true → nnz = elements) :
     (Gen.randomBranch nnz elements dge1 = (0, nnz, elements) ∧ nnz = elements) ∨
     (Gen.randomBranch nnz elements dge1 = (1, nnz, elements) ∧ nnz < 2 ∧ nnz < elements) ∨
     (Gen.randomBranch nnz elements dge1 = (2, elements - nnz, elements) ∧ 2 ≤ nnz ∧ elements - nnz = 1) ∨
-    (Gen.randomBranch nnz elements dge1 = (3, elements - nnz, elements) ∧ 2 ≤ elements - nnz ∧ 10 * (elements - nnz) < elements) ∨
-    (Gen.randomBranch nnz elements dge1 = (4, elements - nnz, elements) ∧ 2 ≤ elements - nnz ∧ 2 ≤ nnz) ∨
-    (Gen.randomBranch nnz elements dge1 = (5, nnz, elements) ∧ 2 ≤ nnz ∧ 10 * nnz < elements) ∨
-    (Gen.randomBranch nnz elements dge1 = (6, nnz, elements) ∧ 2 ≤ nnz ∧ 2 ≤ elements - nnz) :=
+    (Gen.randomBranch nnz elements dge1 = (3, elements - nnz, elements) ∧ 1 ≤ elements - nnz ∧ 1 ≤ nnz) ∨
+    (Gen.randomBranch nnz elements dge1 = (4, elements - nnz, elements) ∧ 1 ≤ elements - nnz ∧ 0 ≤ nnz) ∨
+    (Gen.randomBranch nnz elements dge1 = (5, nnz, elements) ∧ 1 ≤ nnz ∧ 1 ≤ elements - nnz) ∨
+    (Gen.randomBranch nnz elements dge1 = (6, nnz, elements) ∧ 1 ≤ nnz ∧ 0 ≤ elements - nnz) :=
   randomBranch_cases nnz elements dge1 h0 h1 hd
 
 /-- **random_count_distinct_inrange.** For `0 ≤ nnz ≤ elements` (and `density ≥ 1` only together with
